@@ -67,8 +67,8 @@ Definition allowed_keys (p : proj) : list (str * list tag) :=
                      | DEnum _ => [] end) (p_types p) ++
   flat_map (fun c => map (fun f => (params_name c ++ L "." ++ key_text (mk_key (m_key f)), allowed_for_type (m_ty f))) (c_params c)) (p_cmds p).
 Definition proj_dom (p : proj) : bool :=
-  map_wide (p_map p) && forallb dom (member_types p) &&
-  forallb (fun c => forallb (fun ch => dom (snd ch)) (c_chans c)) (p_cmds p).
+  map_wide (p_map p) && forallb dom_w (member_types p) &&
+  forallb (fun c => forallb (fun ch => dom_w (snd ch)) (c_chans c)) (p_cmds p).
 
 Definition sx_tag (t : tag) : sx := SA (L (tag_name t)).
 Definition sx_tags (l : list tag) : sx := SL (map sx_tag l).
@@ -137,7 +137,7 @@ Definition c10_string_oracle_sx (plain_s ziface_s zfield_s zparam_s : str) : sx 
   | _, _, _, _ => SL [sx_bool false; sx_tags [TgParse]; sx_tags [TgParse]]
   end.
 
-Definition c10_dom (m : mapping) (t : tstruct) : bool := map_wide m && dom t.
+Definition c10_dom (m : mapping) (t : tstruct) : bool := map_wide m && dom_w t.
 (* oracle alone on two generated modules (configurations whose naming the model is not fed) *)
 Definition c10_compare_sx (plain_text zod_text : str) : sx :=
   match parse_module plain_text, parse_module zod_text with
